@@ -23,6 +23,8 @@ DIMS_POOL = {1: [["x"], ["t"]], 2: [["x", "y"], ["a", "b"], ["y", "x"]],
 
 
 def S(x):
+    if isinstance(x, (float, np.floating)) and not np.isfinite(x):
+        return repr(float(x))
     return g.qs(x)
 
 
@@ -503,7 +505,8 @@ def run_history(case):
         oracle += here
         trace.append(dict(step=idx, ip=st_ip, copy=st_cp, after_inplace=obs_ip, after_copy=new_root_obs,
                           clauses=sorted(set(here))))
-        coq_steps.append(f"({g.b(st['ip'])}, {step_coq(st)}, {opt_ostate_coq(obs_ip)}, {opt_ostate_coq(obs_cp)})")
+        if not nf and not nonfinite:
+            coq_steps.append(f"({g.b(st['ip'])}, {step_coq(st)}, {opt_ostate_coq(obs_ip)}, {opt_ostate_coq(obs_cp)})")
         sig.append((st["op"], st["ip"], st_ip == "ok", st.get("cls", "")))
         if nf:
             nonfinite = True
@@ -512,6 +515,8 @@ def run_history(case):
         if adv_ok:
             cur = c if (st["ip"] or via_mesh) else new
             rot_seen = rot_now
+            if has_nan(observe(cur)):
+                break
             if exp is not None and not nf:
                 sim = exp
             else:
